@@ -44,8 +44,8 @@ class C03(Prop):
         if ctx.tier == "thorough":
             return list(range(1024))
         r = ctx.rng("len")
-        return sorted(set(list(range(17)) + [255, 256, 257, 511, 512, 1020, 1021, 1022, 1023] +
-                          [r.randrange(1024) for _ in range(40)]))
+        return sorted(set(list(range(17)) + [255, 256, 257, 511, 512, 767, 768, 769, 1020, 1021, 1022, 1023] +
+                          [r.randrange(1024) for _ in range(40)] + dict_ints(0, 1023, ctx.repo, 60, r) + new_ints(0, 1023, ctx.repo)))
 
     def gen(self, ctx):
         r = ctx.rng("gen")
